@@ -167,6 +167,16 @@ func (tc *typechecker) checkNodes(nodes []ast.Node) []ast.Node {
 
 	tc.terminating = false
 
+	// caseBody is the case clause whose body is nodes, if any. It is
+	// determined here because the loop below may replace nodes with a
+	// transformed copy (a using statement becomes two statements).
+	var caseBody *ast.Case
+	if len(tc.ancestors) > 0 && len(nodes) > 0 {
+		if cas, ok := tc.ancestors[len(tc.ancestors)-1].(*ast.Case); ok && len(cas.Body) == len(nodes) && &cas.Body[0] == &nodes[0] {
+			caseBody = cas
+		}
+	}
+
 	i := 0
 
 nodesLoop:
@@ -403,7 +413,7 @@ nodesLoop:
 				parent := tc.ancestors[len(tc.ancestors)-1]
 				// The statement must be in the body of the case, not in a
 				// block nested in it.
-				if cas, ok := parent.(*ast.Case); ok && len(cas.Body) == len(nodes) && &cas.Body[0] == &nodes[0] {
+				if cas := caseBody; cas != nil {
 					nn := len(nodes)
 				CASE:
 					switch i {
